@@ -25,7 +25,7 @@ ASSUMPTIONS = [
     "ruin caused by a rebalance's own trading costs (post-trade valuation) is outside the listed quantifier (adverse price paths) and not generated",
 ]
 
-REWARDS = [["simple"], ["log"], ["pnl"], ["logret", 0.01, 2.0, 0.1]]
+REWARDS = [["simple"], ["log"], ["pnl"], ["logret", 0.01, 2.0, 0.1], ["custom"]]     # custom: a user-defined reward that never values the account
 
 
 @st.composite
